@@ -227,7 +227,7 @@ func init() {
 				}
 				quiesce()
 				k := vrt.Choose(nconn, "which-connection-fails")
-				order := vrt.Choose(6, "who-sends")
+				order := vrt.Choose(7, "who-sends") // F16PENDING: 8 once the repair of F16 is in /repo
 				r.sa[k].Reset()
 				switch order {
 				case 4:
@@ -236,6 +236,12 @@ func init() {
 				case 5:
 					ss.Close()
 					cs.Write([]byte{2})
+				case 6:
+					// the application closes the session before any receive loop has noticed the fault
+					r.cli.Close()
+				case 7:
+					r.srv.Close()
+					r.cli.Close()
 				case 0:
 					cs.Write([]byte{2})
 					ss.Write([]byte{3})
@@ -539,6 +545,8 @@ func init() {
 		jobs = append(jobs, vx.Job{Scenario: "mux.fault", Params: vx.P("fault", "reset0", "frames", "1", "srvwrite", "1", "delay", "1"), Bound: b(2, 3), Weight: 9})
 		jobs = append(jobs, vx.Job{Scenario: "mux.fault", Params: vx.P("fault", "reset0", "frames", "2", "wlimit", "1", "srvwrite", "1", "delay", "1"), Bound: b(1, 2), Weight: 9})
 		jobs = append(jobs, vx.Job{Scenario: "mux.fault", Params: vx.P("fault", "reset01", "frames", "1", "conns", "3", "delay", "1"), Bound: b(2, 3), Weight: 8})
+		// record-layer connections with back-pressure: a write parked on one connection while another fails
+		jobs = append(jobs, vx.Job{Scenario: "mux.fault", Params: vx.P("fault", "reset1", "frames", "2", "tls", "1", "conns", "2", "wlimit", "1", "delay", "1"), Bound: b(1, 2), Weight: 8})
 		// long-lived sessions: a frame for a long-closed stream after thousands of stream closures
 		jobs = append(jobs, vx.Job{Scenario: "mux.lateframe", Params: vx.P("strict", "1"), Bound: b(1, 2), Weight: 3})
 		jobs = append(jobs, vx.Job{Scenario: "mux.lateframe", Params: vx.P("strict", "1", "cycles", "4200", "targets", map[bool]string{true: "few", false: "all"}[q]), Bound: 0, Weight: 9})
